@@ -29,7 +29,7 @@ pub fn meta() -> PropMeta {
         nontrivial_floor: 0.3,
         run,
         replay,
-        crashy: false,
+        crashy: true,
     }
 }
 
